@@ -1,4 +1,6 @@
 import Reduino.Props.C12
 import Reduino.Props.C13
+import Reduino.Props.C15
+import Reduino.Props.C16
 import Reduino.Props.C19
 import Reduino.Props.C20
